@@ -1,6 +1,7 @@
 use crate::engine::Run;
 pub mod c01;
 pub mod c02;
+pub mod c05;
 pub mod c07;
 pub mod c17;
 pub mod c18;
@@ -10,6 +11,7 @@ pub fn dispatch(prop: &str, run: Run) -> Option<i32> {
     Some(match prop {
         "C01" => c01::run(run),
         "C02" => c02::run(run),
+        "C05" => c05::run(run),
         "C07" => c07::run(run),
         "C17" => c17::run(run),
         "C18" => c18::run(run),
